@@ -106,7 +106,7 @@ def main():
                     if rcc == 1:
                         m = re.search(r"property \w+ violated:\n(.*?)(\n\s+case:|\n\s+history:|$)", outc, re.S)
                         if m:
-                            expl = " ".join(m.group(1).split())[:400]
+                            expl = " ".join(m.group(1).split())[:4000]
                         elif "DATA RACE" in outc:
                             expl = "race detector report"
                         else:
@@ -114,7 +114,8 @@ def main():
                             expl = " ".join(m.group(2).split())[:400] if m else outc[-400:]
                     elif rcc == 2:
                         expl = outc[-600:]
-                    rec["checks"][p] = {"verdict": verdict, "seconds": round(time.time() - t0), "explanation": expl, **({"per_seed": dict(zip([str(x) for x in seeds], per_seed))} if seeds != [None] else {})}
+                    expl = re.sub(r"(.)\1{19,}", lambda mm: mm.group(1) * 3 + "...(%d)" % len(mm.group(0)), expl)
+                    rec["checks"][p] = {"verdict": verdict, "seconds": round(time.time() - t0), "explanation": expl[:600], **({"per_seed": dict(zip([str(x) for x in seeds], per_seed))} if seeds != [None] else {})}
                     if not todo and fallback_all and not done_fallback and not any(c["verdict"] == "CAUGHT" for c in rec["checks"].values()):
                         # the property's own check missed it: does any other property's check notice?
                         done_fallback = True
